@@ -351,7 +351,8 @@ class TrCounters:
         self.c = {"cases": 0, "kernel_cases": 0, "grid_cases": 0, "columns_checked": 0, "computes": 0,
                   "tasks_executed": 0, "choice_points": 0, "degenerate_cells": 0, "cells_on_bin_edge": 0,
                   "columns_inside_span": 0, "poisoned_elements": 0, "kernel_calls": 0, "multi_chunk_cases": 0,
-                  "masked_levels": 0, "levels_at_end_values": 0, "decreasing_columns": 0, "eager_refused": 0}
+                  "masked_levels": 0, "levels_at_end_values": 0, "decreasing_columns": 0, "eager_refused": 0,
+                  "scaled_calls": 0}
         self.fired = {}
         self.orders = set()
         self.graph_shapes = set()
@@ -429,6 +430,14 @@ def run_c07(spec, cnt):
             if inside and not close(float(out[c].sum()), float(phi[c].sum()), 1e-10):
                 return V("C07", "conservation", "kernel", feat,
                          f"column {c}: sum over bins {float(out[c].sum())} != sum over cells {float(phi[c].sum())} (theta {list(th)}, bins {list(bins)})")
+        if spec.get("scale_exp"):
+            cnt.c["scaled_calls"] += 1
+            sc = 2.0 ** spec["scale_exp"]
+            out_s = T.interp_1d_conservative(phi * sc, theta_arg, bins)
+            if not np.array_equal(out_s / sc, out, equal_nan=True):
+                return V("C07", "linearity", "kernel", feat + "/scaled",
+                         f"data multiplied by 2^{spec['scale_exp']} do not give the result multiplied by 2^{spec['scale_exp']}: "
+                         f"{(out_s / sc).tolist()} (rescaled) vs {out.tolist()} (phi {phi.tolist()}, bins {list(bins)})")
         # reversing the bins only reverses the output - per column
         out_rev = T.interp_1d_conservative(phi, theta_arg, bins[::-1].copy())
         if not np.array_equal(out_rev, out[..., ::-1], equal_nan=True):
@@ -568,6 +577,21 @@ def run_grid(spec, cnt, prop, feat):
             return V(prop, "eager-raises", "grid", feat + "/" + type(e).__name__,
                      f"Grid.transform raised {type(e).__name__}: {str(e)[:300]} on a well-posed request "
                      f"(method {kw['method']}, target_data dims {td.dims}, da dims {da.dims})")
+    if spec.get("scale_exp") and not spec.get("int_data"):
+        cnt.c["scaled_calls"] += 1
+        sc = np.asarray(2.0 ** spec["scale_exp"], dtype=da.dtype)
+        with warnings.catch_warnings():
+            warnings.simplefilter("ignore")
+            try:
+                eager_s = grid.transform((da * sc).rename(da.name), "Z", target, **kw).compute()
+                same = eager_s.dims == eager.dims and np.array_equal((eager_s / sc).values, eager.values, equal_nan=True)
+                why = "" if same else f"{(eager_s / sc).values.tolist()} (rescaled) vs {eager.values.tolist()}"
+            except Exception as e:  # noqa
+                same, why = False, f"raises {type(e).__name__}: {str(e)[:200]}"
+        if not same:
+            return V(prop, "linearity" if prop == "C07" else "values", "grid", feat + "/scaled",
+                     f"Grid.transform of the data multiplied by 2^{spec['scale_exp']} is not the result multiplied by "
+                     f"2^{spec['scale_exp']}: {why}"[:900])
     # ---- naming (C08 states it; for C07 only the presence of the new dimension is needed)
     if exp_dim not in eager.dims:
         return V(prop, "naming-dim", "grid", feat,
@@ -730,6 +754,15 @@ def run_c08(spec, cnt):
                 return V("C08", kind, "kernel", _c08_feat(spec, th, lv[k]),
                          f"column {c}, level {lv[k]}: got {g}, piecewise-linear model {e} (method {spec['method']}, mask_edges "
                          f"{spec['mask_edges']}, bypass_checks {spec['bypass_checks']}, theta {th.tolist()}, phi {phi[c].tolist()})")
+    if spec.get("scale_exp"):
+        cnt.c["scaled_calls"] += 1
+        sc = 2.0 ** spec["scale_exp"]
+        out_s = T.interp_1d_linear(phi * sc, theta, lv, mask_edges=spec["mask_edges"], bypass_checks=spec["bypass_checks"],
+                                   logarithmic=log)
+        if not np.array_equal(out_s / sc, out, equal_nan=True):
+            return V("C08", "values", "kernel", spec["method"] + "/scaled",
+                     f"data multiplied by 2^{spec['scale_exp']} do not give the interpolant multiplied by 2^{spec['scale_exp']}: "
+                     f"{(out_s / sc).tolist()} (rescaled) vs {out.tolist()}")
     # level order must not matter
     perm = np.random.default_rng(spec["phi_seed"]).permutation(len(lv))
     out2 = T.interp_1d_linear(phi, theta, lv[perm], mask_edges=spec["mask_edges"], bypass_checks=spec["bypass_checks"],
@@ -843,6 +876,13 @@ class Engine:
     def run(self, i, seed_i, tier):
         rng = core.stream(seed_i, "workload")
         spec = gen_c07(rng, tier) if self.prop == "C07" else gen_c08(rng, tier)
+        srng = core.stream(seed_i, "scale")
+        if not spec.get("int_data") and srng.random() < 0.3:
+            # the same call on the data multiplied by a power of two (tiny or huge magnitudes: tracer concentrations,
+            # masses in kg): both transforms are linear in the data and a power of two scales every product and sum
+            # exactly, so the result must be the scaled result bit for bit
+            spec["scale_exp"] = srng.choice([-200, -100, -60, -40, -30, 30, 60] if not spec.get("float32")
+                                            and not spec.get("fine_f32") else [-60, -40, -30, 30, 40])
         v = run_case(spec, self.cnt)
         ncol = int(np.prod(spec["cols"])) if spec["cols"] else 1
         multi = any(len(c) > 1 for c in (spec.get("chunks") or []))
